@@ -3,14 +3,48 @@
 import json, sys
 sys.path.insert(0, '/verif/lib')
 
+CORR = ' Tie to /repo: Generated.v (tables, constants) regenerated from the built engine on every run; the hand-written model is executed against the engine on the stream named in technique; a broken theorem or a model/engine disagreement is re-judged against the property itself and reported with the failing input (or no-failing-input-found).'
+TB = 'Trusted: Coq 8.16.1 kernel (+vm_compute), extraction (ExtrOcamlBasic only), the Go harness/hooks (tag verif), the OCaml oracle driver and the Python driver; the engine logic is modelled by hand (coq/*.v follow engine/*.go), only data is regenerated. '
 CLAIMS = {
-    # id: (technique, level text, level note, design section)
+    'C03': ('Coq theorems over the search state machine (all oracle streams = all stop/clock timings, all orderings) + real-engine go forms with stops',
+            'C03_one_bestmove / C03_bestmove_legal: for EVERY stop timing, clock behaviour, move ordering and logging interval the search model (SearchImp.iterate_i, mirrors search.go incl. position stack, PV hand-over, interruption flag) emits exactly one bestmove, a legal root move and head of the last printed PV (0000 exactly when the root has no move).' + CORR,
+            TB + 'Hypotheses of the theorems: ordering returns a permutation; tactical moves are legal moves (C06). The Go scheduler/wall clock is abstracted by the oracle streams.', '6/C03'),
+    'C04': ('Coq theorems alpha-beta = minimax (L1 and state machine) + engine scores vs extracted model search vs plain minimax',
+            'C04_alpha_beta / C04_quiescence / C04_root_value / C04_state_machine*: fail-hard alpha-beta with lazy evaluation, ANY move ordering (killers, PV bonus, unstable sort) returns exactly the minimax value of the depth-d tree under the full evaluation whenever no quiescence node is lazy-sensitive (the admitted deviation; decidable by minimax_s), for every window inside [-Inf, Inf]; values never leave the window.' + CORR,
+            TB + 'The search theorems treat move generation/evaluation as given functions (their exactness is C01/C02/C06/C15). Engine scores are compared on sampled positions to depth 1-4.', '6/C04'),
+    'C07': ('Kernel-evaluated sweep of all 64x64x5 move strings (theorem) + position commands in all forms against model and engine-internal replay',
+            'C07_roundtrip*: every printable move parses back to itself (lower case, upper-case promotion suffix, fully upper case): complete finite domain decided by vm_compute and lifted to a universal statement. The `position` replay part is decided by the correspondence: startpos / bare FEN / fen-keyword commands with whole games and prefixes must give the snapshot obtained by playing the moves (engine vs engine) and the model\'s.' + CORR,
+            TB + 'The theorem that `position` = fold of the rules\' apply follows from C02 (make_spec) + C08; it is not yet stated as one theorem.', '6/C07'),
+    'C08': ('Coq theorems parse_fen total and sound (all strings) + FEN stream (valid, variants, mutations, junk) against the engine',
+            'C08_total: no string makes the loader panic (every board index and list append is guarded); C08_sound: every accepted string yields a well-formed position (lists = board, one king each, capacities incl. room for promotions, no back-rank pawns, consistent castling/ep fields, ply in range, side not to move not in check). Both for ALL strings.' + CORR,
+            TB + 'Faithfulness for valid FENs is decided by the differential stream (engine snapshot = model snapshot); a rejected FEN leaving the position unchanged is checked through the command interpreter.', '6/C08'),
+    'C09': ('Coq theorems isUnderCheck = geometry for every board + exhaustive single-attacker enumeration (2.9M cases) + positions',
+            'C09_piece/pawn/king/under_check: on ANY board, with lists that agree with the board, the engine\'s attack test equals the rules\' geometry (sliders blocked by any piece in between, knights/kings/pawns not, pawns by colour, nothing across the edge); proved from kernel sweeps over the regenerated attack/direction tables (64x64) plus generic ray lemmas.' + CORR,
+            TB + 'The complete enumeration of the property\'s quantifier (12 attackers x from x to x no/one blocker) runs on every check through the hook against model and Spec.', '6/C09'),
+    'C10': ('Coq theorems on the search state machine (every oracle) + replay of every printed PV of real searches',
+            'C10_all_output_wellformed etc.: every info line the search prints (mid-iteration ones included) carries a non-empty line that is legal move by move from the root, currmove lines name a legal root move with its 1-based number, bestmove is the head of the last PV line; for all stop/clock timings and orderings; a stale PV row read is a model panic, excluded by the theorems.' + CORR,
+            TB + 'PVs are modelled functionally (option line per node, None = row never written) rather than as the shared triangular slices; aliasing bugs in the slices are covered by the replay of real output only.', '6/C10'),
+    'C11': ('Coq theorems (no-leak + determinism of completed iterations) + sync-hook schedules: stop/deadline after every root move of every iteration',
+            'C11_no_leak: the move played is the head of the line of the newest completed iteration that passed both the deadline and the interruption test (else of the depth-1 iteration); C11_*deterministic: a completed iteration does not depend on unconsumed oracle values, so it equals the iteration of `go depth D`.' + CORR,
+            TB + 'Schedules place the interruption deterministically through verifSync; wall-clock stops are sampled.', '6/C11'),
+    'C12': ('Coq invariants of a two-thread transition system (every interleaving) + sync-hook schedule lattice + race detector (thorough)',
+            'C12_*: over every reachable state of the command-thread/search-thread LTS at shared-operation granularity: the command thread never blocks, a stop seen by a running search is in the channel until polled, exactly one bestmove per go, isready always answered and transparent, no stale token reaches a later search, bounded work after the stop; the pre-fix protocol is refuted by three concrete schedules.' + CORR,
+            TB + 'Partial: sequentially consistent interleaving of shared operations; the Go memory model/scheduler is not modelled (the shared accesses are an atomic.Bool and channel operations; -race run in the thorough tier).', '6/C12'),
     'C13': ('Coq theorems (lia) on the allotment formula + exhaustive boundary-lattice correspondence through the real `go` command',
-            'Theorems C13_value/mover_clock/bounds/mono_left/mono_inc/anti_mtg/movetime/clock_deadline/parsed_mtg/no_panic hold for ALL integers in the '
-            'stated range (not a lattice); the model they are about (Uci.v millis_for_move/allotted_ns/parse_go) is executed against the built engine on '
-            '462k `go` commands (complete boundary lattice + random/malformed argument lists) on every run. Wall-clock honouring is sampled (partial).',
-            'Trusted: Coq kernel, extraction (ExtrOcamlBasic), harness/deadline hook, hand-written model of doGo/calcEndtime; wall clock part is validation only.',
-            '6/C13'),
+            'C13_value/mover_clock/bounds/mono_left/mono_inc/anti_mtg/movetime/clock_deadline/parsed_mtg/no_panic hold for ALL integers in the stated range; the model (Uci.v) is executed against the built engine on 462k `go` commands (complete lattice + random/malformed argument lists).' + CORR,
+            TB + 'Partial: wall-clock honouring of the deadline is sampled (validation).', '6/C13'),
+    'C15': ('Coq equivariance proof of the whole evaluation under colour flip + list-order independence + mirrored position pairs on the engine',
+            'C15_mirror / C15_symmetric / C15_list_order: for every well-formed position the colour-flipped position evaluates identically (material, piece-square tables incl. the binary64 king taper with identical arguments, own and opponent mobility with the king-capture and start-rank-ep quirks), and the value does not depend on piece-list order; from kernel sweeps over the regenerated tables + equivariance of is_under_check/make/count_moves.' + CORR,
+            TB + 'IEEE binary64 modelled with Coq SpecFloat; no float reasoning needed for symmetry.', '6/C15'),
+    'C16': ('Coq stack-discipline theorems for every oracle + in-process query sequences with snapshots',
+            'C16_go_leaves_the_stack etc.: every push is popped on every exit path (cut-off, interruption, deadline) and the evaluation\'s turn-flag flip is undone, for all oracles/orderings; perft/eval are modelled functionally. The engine is checked after every query command of random sequences (stack index 0, snapshot unchanged, same probe search).' + CORR,
+            TB, '6/C16'),
+    'C18': ('Coq capacity theorem (PV rows, stack, quiescence fuel) for every oracle + stress inputs on the engine',
+            'C18_no_capacity_panic: with tactical moves decreasing a measure (<= 46) and depth <= 40 the search never indexes the PV table, the position stack or runs out of quiescence fuel: 40 + 46 + 1 < 88 rows < 200 slots. Engine: move numbers up to the loader\'s limit, iteration 40 on blocked positions, capture-heavy positions, games of 300-700 plies.' + CORR,
+            TB + 'The measure hypotheses (captures/promotions decrease men+pawns) are stated as premises; killer-table slot arithmetic is total by construction (uint16 mod 350).', '6/C18'),
+    'C19': ('Coq theorems on the read loop (any input, any search) + child processes ended by quit/EOF in every state',
+            'C19_terminates/eof/quit: the read loop ends after at most one iteration per input line plus one, at once on end of input, and at `quit` without reading further, for every input and every search; the pre-fix loop (ignoring Scan) is the recorded finding.' + CORR,
+            TB + 'Partial: OS pipe semantics and process teardown are observed, not modelled.', '6/C19'),
 }
 
 ALL = ['C%02d' % i for i in range(1, 20)]
@@ -43,7 +77,7 @@ def main():
         'setup_cmd': './check --setup',
         'hooks': {'guard': 'verif', 'enable': 'go build -tags verif (harness module /verif/harness with replace macsmol/magog => /repo)',
                   'baseline_off_cmd': BASELINE,
-                  'source_commits': ['f061b3c'], 'add_only': True},
+                  'source_commits': ['e39a3fe','77c86f9','f061b3c'], 'add_only': True},
         'engines': [{'name': 'coq-model+correspondence', 'path': '/verif/coq', 'serves_properties': sorted(CLAIMS),
                      'kind_free_text': 'Coq 8.16.1 development (model + theorems), extracted OCaml oracle, Go harness (tag verif), Python driver ./check'}],
         'checks': checks,
